@@ -25,6 +25,7 @@ import (
 
 func (self *Fork) postProcess(ctx context.Context) error {
 	defer trace.StartRegion(ctx, "Fork_postProcess").End()
+	util.VerifPoint("snapshot:pre_postprocess", self.metadata.MetadataFilePath(OutsFile), self.fqname)
 
 	ro := self.node.call.ResolvedOutputs()
 	if ro == nil {
